@@ -268,6 +268,8 @@ func corpusGoGen() []*modSpec {
 		mk("go-enum-no-exported", "package models\n\ntype E int\n\nconst (\n\ta E = iota\n\tb\n)\n\ntype S struct{ V E }\n"),
 		mk("go-fixed-array-of-unions", "package models\n\ntype U interface{ isU() }\ntype A struct{ X int }\nfunc (A) isU() {}\n\ntype Fixed [3]U\n\ntype S struct{ F Fixed }\n"),
 		mk("go-id-upper-with-foreign-keys", "package models\n\nimport \"database/sql\"\n\ntype IdAuthor int64\ntype IdBook int64\ntype IdShelf int64\n\ntype Author struct {\n\tID IdAuthor\n\tName string\n}\n\ntype Shelf struct {\n\tId IdShelf\n\tLabel string\n}\n\ntype Book struct {\n\tID IdBook\n\tIdAuthor IdAuthor\n\tIdShelf IdShelf `gomacro-sql-on-delete:\"CASCADE\"`\n\tCoAuthor sql.NullInt64 `gomacro-sql-foreign:\"Author\"`\n\tTitle string\n}\n"),
+		mk("go-imported-package-named-like-own", "package models\n\nimport shared \"example.com/org/models/shared/models\"\n\ntype IdOrder int64\n\ntype Order struct {\n\tId IdOrder\n\tStatus shared.Status\n\tCurrency shared.Currency\n\tHistory shared.Statuses\n}\n",
+			modFile{"shared/models/models.go", "package models\n\ntype Status int\n\nconst (\n\tPending Status = iota + 1\n\tPaid\n\tShipped\n)\n\ntype Statuses []Status\n\ntype Currency string\n\nconst (\n\tEUR Currency = \"EUR\"\n\tUSD Currency = \"USD\"\n)\n"}),
 		mk("go-id-upper", "package models\n\ntype IdT int64\n\ntype T struct {\n\tID IdT\n\tName string\n}\n\ntype Link struct {\n\tIdT IdT\n\tV int\n}\n"),
 		mk("go-tables-basic", "package models\n\ntype IdA int64\ntype IdB int64\n\n// gomacro:SQL ADD UNIQUE(Name)\ntype A struct {\n\tId IdA\n\tName string\n\tN int\n}\n\ntype B struct {\n\tId IdB\n\tIdA IdA `gomacro-sql-on-delete:\"CASCADE\"`\n\tOpt OptA\n\tTags []string\n\tFlags [3]bool\n}\n\ntype OptA struct {\n\tValid bool\n\tId IdA\n}\n\n// gomacro:SQL ADD UNIQUE(IdA, IdB)\ntype LinkAB struct {\n\tIdA IdA\n\tIdB IdB\n}\n"),
 		mk("go-unions-shared-prefix", "package models\n\ntype Shape1 interface{ is1() }\ntype Shape2 interface{ is2() }\n\ntype A struct{ X int }\n\nfunc (A) is1() {}\nfunc (A) is2() {}\n\ntype S struct {\n\tV1 Shape1\n\tV2 Shape2\n}\n"),
